@@ -120,7 +120,8 @@ theorem cmpAll_forall₂ {op : Cmp} {v : ℚ} : ∀ {obs : List (Option ℚ)} {b
 theorem applyAlleleFilter_inv {r : RecordM} {field : String} {op : Cmp} {v : ℚ} {keep : List Bool}
     (h : applyAlleleFilter r field op v = .ok keep) :
     ∃ f, findField r field = some f ∧
-      ((f.values = none ∧ (f.number = .R ∨ f.number = .A) ∧ keep = List.replicate (1 + r.nAlts) true) ∨
+      (((f.values = none ∨ (f.number = .A ∧ r.nAlts = 0)) ∧ (f.number = .R ∨ f.number = .A) ∧
+          keep = List.replicate (1 + r.nAlts) true) ∨
        (∃ obs, f.values = some obs ∧ f.number = .R ∧ obs.length = 1 + r.nAlts ∧ cmpAll op v obs = .ok keep) ∨
        (∃ obs bs, f.values = some obs ∧ f.number = .A ∧ obs.length = r.nAlts ∧ cmpAll op v obs = .ok bs ∧
           keep = true :: bs)) := by
@@ -134,7 +135,7 @@ theorem applyAlleleFilter_inv {r : RecordM} {field : String} {op : Cmp} {v : ℚ
       split at h
       · rename_i hv
         simp only [Except.ok.injEq] at h
-        exact Or.inl ⟨hv, Or.inl hnum, h.symm⟩
+        exact Or.inl ⟨Or.inl hv, Or.inl hnum, h.symm⟩
       · rename_i obs hv
         split at h
         · rename_i hlen
@@ -144,8 +145,12 @@ theorem applyAlleleFilter_inv {r : RecordM} {field : String} {op : Cmp} {v : ℚ
       split at h
       · rename_i hv
         simp only [Except.ok.injEq] at h
-        exact Or.inl ⟨hv, Or.inr hnum, h.symm⟩
+        exact Or.inl ⟨Or.inl hv, Or.inr hnum, h.symm⟩
       · rename_i obs hv
+        split at h
+        · rename_i h0
+          simp only [Except.ok.injEq] at h
+          exact Or.inl ⟨Or.inr ⟨hnum, h0⟩, Or.inr hnum, h.symm⟩
         split at h
         · rename_i hlen
           split at h
